@@ -74,15 +74,33 @@ RACE_RE = re.compile(r"WARNING: DATA RACE\n(.*?)\n==================", re.S)
 
 
 def dedupe_races(text):
+    """One entry per distinct race: key = data-race:<poly function A>|<poly function B> (the innermost
+    polynetwork/poly frame of each of the two conflicting accesses, sorted; no line numbers)."""
     seen = {}
     for m in RACE_RE.finditer(text):
         body = m.group(1)
-        frames = [re.sub(r"\(\)$", "", l.strip()) for l in body.splitlines()
-                  if l.startswith("  ") and not l.strip().startswith("/") and "()" in l]
-        # fingerprint: function names only (no line numbers, no addresses)
-        key = hashlib.sha1("|".join(frames[:12]).encode()).hexdigest()[:12]
+        tops = []
+        for stack in re.split(r"\n\n", body):
+            if not re.match(r"\s*(Read|Write|Previous read|Previous write|Atomic|Previous atomic)", stack.strip() or "x"):
+                continue
+            top = None
+            for l in stack.splitlines():
+                l = l.strip()
+                if l.startswith("github.com/polynetwork/poly/") and l.endswith(")"):
+                    top = re.sub(r"\(.*\)$", "", l).replace("github.com/polynetwork/poly/", "")
+                    break
+            tops.append(top or "non-poly")
+        key = "data-race:" + "|".join(sorted(set(tops)))
         seen.setdefault(key, body)
     return seen
+
+
+def known_keys(pid):
+    try:
+        d = json.load(open(os.path.join(VERIF, "known_findings.json")))
+    except Exception:
+        return {}
+    return {x["key"]: x["what"] for x in d if x.get("property") == pid and x.get("kind") == "known"}
 
 
 def validate_evidence(path, pid, tier, level):
@@ -179,13 +197,23 @@ def run_check(pid, tier, replay=None, keep=False):
                 rc = 1
             races = dedupe_races(text) if race else {}
             if races:
-                rp = os.path.join(VERIF, "replays", "%s-%s-races.txt" % (pid, tier))
+                rp = os.path.join(VERIF, "replays", "%s-%s-races-%s.txt" % (pid, tier, name))
                 with open(rp, "w") as f:
                     for k, body in races.items():
-                        f.write("== race %s ==\n%s\n\n" % (k, body))
-                out_lines.append("VIOLATION property=%s replay=%s" % (pid, rp))
-                out_lines.append("  key=data-race what=%d distinct race report(s) from the Go race detector" % len(races))
-                rc = 1
+                        f.write("== %s ==\n%s\n\n" % (k, body))
+                kn = known_keys(pid)
+                for k in sorted(races):
+                    if k in kn:
+                        out_lines.append("KNOWN-FINDING: property=%s %s [key=%s]" % (pid, kn[k], k))
+                    else:
+                        out_lines.append("VIOLATION property=%s replay=%s" % (pid, rp))
+                        out_lines.append("  key=%s what=race report from the Go race detector (phase %s)" % (k, name))
+                        rc = 1
+                # the Go test binary exits non-zero when a race was reported; that alone is not a verdict
+                if (rc == 0 and p.returncode == 1 and not vio and "race detected during execution of test" in text
+                        and not any(l.startswith("INCONCLUSIVE ") for l in text.splitlines())
+                        and not re.search(r"^(panic:|fatal error:)", text, re.M)):
+                    p = subprocess.CompletedProcess(p.args, 0)
             if p.returncode != 0 and rc == 0:
                 if p.returncode in (124, 137) or "SIGQUIT: quit" in text:
                     out_lines.append("INCONCLUSIVE property=%s why=watchdog (%ss) fired in phase %s; log=%s" % (pid, tmo, name, log))
@@ -225,7 +253,7 @@ def run_check(pid, tier, replay=None, keep=False):
                     "evaluations": ev["coverage"].get("evaluations", 0),
                     "distinct_nontrivial": ev["coverage"].get("distinct_nontrivial", 0),
                     "observed": ev["coverage"].get("observed", {}),
-                    "race_reports": len(races), "exit": p.returncode}
+                    "race_reports": len(races), "race_keys": sorted(races), "exit": p.returncode}
             if rc == 1:
                 break
         if merged is not None:
